@@ -125,13 +125,13 @@ def _build(cfg):
         o = cfg['opt']
         return dict(f=spec.build(info.space, o), info=info, ref=spec.ref(info, o),
                     cref=FR.conj_ref(info, spec.name, o), V=spec.V,
-                    dom=spec.dom(info, o) if spec.dom else None, tol=spec.prox_tol)
+                    dom=spec.dom(info, o) if spec.dom else (lambda z: True), tol=spec.prox_tol)
     if k == 'derived':
         spec = FR.BY_NAME[cfg['name']]
         info = FR.info(cfg['space'])
         o = spec.opts[0]
         f, ref, cref = spec.build(info.space, o), spec.ref(info, o), FR.conj_ref(info, spec.name, o)
-        dom = spec.dom(info, o) if spec.dom else None
+        dom = spec.dom(info, o) if spec.dom else (lambda z: True)
         for kd in cfg['der']:
             d = DV.derive(kd, f, ref, cref, info)
             f, ref, cref = d['func'], d['ref'], d['cref']
@@ -146,8 +146,8 @@ def _build(cfg):
         f = odl.solvers.SeparableSum(s1.build(i2.space, o1), s2.build(i2.space, o2))
         r1, r2 = s1.ref(i2, o1), s2.ref(i2, o2)
         c1, c2 = FR.conj_ref(i2, s1.name, o1), FR.conj_ref(i2, s2.name, o2)
-        d1 = s1.dom(i2, o1) if s1.dom else None
-        d2 = s2.dom(i2, o2) if s2.dom else None
+        d1 = s1.dom(i2, o1) if s1.dom else (lambda z: True)
+        d2 = s2.dom(i2, o2) if s2.dom else (lambda z: True)
         dom = None
         if d1 is not None and d2 is not None:
             dom = lambda z: d1(z[:2]) and d2(z[2:])
